@@ -56,17 +56,17 @@ CHECKS["C12"] = dict(
          "stream with non-decreasing timestamps collapse-then-fill returns (the Python loop's only non-termination case, a list that is "
          "not strictly increasing on the grid, is unreachable); and schedule independence: mgr_append cfg (tasks cfg xs) ys = tasks cfg "
          "(xs ++ ys) for the manager with timeframe and fill, any sorted raw stream and any split - also with Heikin-Ashi on top (collapse, fill, convert: fill "
-         "candles flat at the raw close of their predecessor on every schedule). Correspondence and falsifier as for C03 with fill on, incl. schedule "
+         "candles flat at the raw close of their predecessor on every schedule) and with a lifespan (collapse, fill, trim). Correspondence and falsifier as for C03 with fill on, incl. schedule "
          "independence against a batch twin (with and without Heikin-Ashi), and the same stream through a Hexital without a timeframe whose "
          "member asks for one (the Hexital's fill flag governs) against the standalone manager.",
-    note="Fill combined with a lifespan under appends is decided by correspondence + falsifier. Axioms: none.",
+    note="Fill, Heikin-Ashi and lifespan all together under appends is decided by correspondence + falsifier (fill + HA and fill + lifespan are proved). Axioms: none.",
     technique="Coq proof (inductive fill relation) + vm_compute correspondence + falsifier",
     design="5/C12")
 CHECKS["C15"] = dict(
     text="Clause 1 proved: trim_candles on a time-ordered list = filter (ts >= newest - lifespan), the newest candle always survives, and "
          "after every construction/append of a manager the retained candles are exactly that window of the collapsed (and filled) "
          "candles; the window is the same for every append schedule: mgr_append cfg (tasks cfg xs) ys = tasks cfg (xs ++ ys) for the "
-         "manager with timeframe and lifespan. Clause 2 for one reading: for SMA, EMA, RMA, WMA, VWMA, ROC, TR, OBV, Counter, HLA the value computed at an index is "
+         "manager with timeframe and lifespan, also with gap filling (timeframe + fill + lifespan). Clause 2 for one reading: for SMA, EMA, RMA, WMA, VWMA, ROC, TR, OBV, Counter, HLA the value computed at an index is "
          "the same with or without a trimmed prefix that leaves the class's look-back. Correspondence: manager with lifespan, all timeframe/fill variants (check_mgr) and every indicator kind fed candle by "
          "candle under a lifespan that always keeps its look-back (check_ind); falsifier: window against an untrimmed twin after every "
          "append, and readings on the retained candles equal to the untrimmed twin's for all 27 kinds - with the class's look-back plus "
